@@ -80,8 +80,10 @@ def fake_aligner_call(command, stdout=None, stderr=None):
 def make_editor(path, content):
     """an actor outside IsoQuant that replaces an input file while runs are in progress (a new release of the annotation is copied over)"""
     def body(sched):
-        with open(path, "w") as f:
+        # a careful replacement: the new version is written next to the file and renamed over it
+        with open(path + ".new", "w") as f:
             f.write(content)
+        os.replace(path + ".new", path)
         return {"editor": True}
     return body
 
@@ -110,6 +112,8 @@ def make_process(pid, gtf, outdir, clean_start=False, with_mapper_caches=False, 
             RM.get_aligner = lambda name: name
             RM.subprocess = SimpleNamespace(call=fake_aligner_call)
             args.reference = V + "data/ref1.fa"
+            with open(args.reference, "r") as f:
+                res["ref_start"] = f.read()
             args.data_type = "nanopore"
             args.threads = 1
             args.index = None
@@ -119,6 +123,8 @@ def make_process(pid, gtf, outdir, clean_start=False, with_mapper_caches=False, 
             with open(idx, "r") as f:
                 res["index_content"] = f.read()
             res["index_path"] = idx
+            with open(args.reference, "r") as f:
+                res["ref_end"] = f.read()
         elif with_mapper_caches == "annotation":
             # FASTQ mode: the aligner step asks for the junction BED of the annotation (cached one or a fresh export) and reads it
             import src.read_mapper as RM
@@ -216,6 +222,10 @@ def scenario(name):
             v.files[CFG + "/index_config.json"].content = json.dumps({V + "data/ref1.fa": {
                 "index_filename": idx, "reference_mtime": 21.0, "index_mtime": 33.0, "kmer_size": RM.KMER_SIZE["nanopore"]}})
         return [(1, g(1), o(1), True, "index"), (2, g(1), o(2), False, "index")], init
+    if name == "reference-replaced-during-indexing":
+        # the reference is replaced by a new assembly while run 1 builds its index; run 2 works on the same path
+        return [(1, g(1), o(1), False, "index"), ("editor", V + "data/ref1.fa", "x-new-assembly"), (2, g(1), o(2), False, "index")], \
+            lambda v: base_init(v, cfg_exists=True)
     if name == "index-two-fresh":
         return [(1, g(1), o(1), False, "index"), (2, g(1), o(2), False, "index")], lambda v: base_init(v, cfg_exists=True)
     if name == "failing-run-vs-valid":
@@ -298,7 +308,7 @@ def make_check(specs):
                 out.append(("foreign-or-partial-db", "process %d uses %s whose content is %r, expected a conversion of its own input %r" %
                             (pid, r["db"], r["db_content"], exp)))
             if mapper == "index":
-                if r["index_content"] != "idx-of:x;end":
+                if r["index_content"] not in ("idx-of:%s;end" % r["ref_start"], "idx-of:%s;end" % r["ref_end"]):
                     out.append(("foreign-or-partial-index", "process %d loads the index %s whose content is %r, expected the complete index of its "
                                 "reference" % (pid, r["index_path"], r["index_content"])))
             elif mapper == "annotation":
@@ -362,6 +372,7 @@ def run(ctx):
     jobs.append(("bed-rewrite-vs-cached-reader", 3 if quick else 4, 60000 if quick else 400000))
     jobs.append(("index-clean-start-vs-cached", 3 if quick else 4, 60000 if quick else 400000))
     jobs.append(("index-two-fresh", 2 if quick else 3, 60000 if quick else 400000))
+    jobs.append(("reference-replaced-during-indexing", 1 if quick else 2, 60000 if quick else 400000))
     jobs.append(("gtf-rewritten-during-conversion", 2 if quick else 3, 60000 if quick else 400000))
     jobs.append(("three-processes", 1 if quick else 2, 60000 if quick else 400000))
     jobs.append(("failing-run-vs-valid", 1 if quick else 2, 60000 if quick else 400000))
